@@ -13,7 +13,9 @@
 (d) trajectories: BFS-tree histories and all histories up to depth 2 of a family slice run twice in-process
     and once in a fresh interpreter under real NumPy seeds; bit-identical observations / rewards / flags.
 """
+import contextlib
 import hashlib
+import io
 import itertools
 import json
 import multiprocessing as mp
@@ -175,9 +177,17 @@ def run_trajectories(entries_json, seeds):
                 h = hashlib.sha1()
                 np.random.seed(seed)
                 n_chance = 0
-                for hist in hists:
+                for hn, hist in enumerate(hists):
                     tenv.reset()
                     for a_idx, _ in hist:
+                        if hn < 12:
+                            # the same observer calls in every life: looking at the environment is not an action
+                            try:
+                                with contextlib.redirect_stdout(io.StringIO()):
+                                    tenv.render_state("ansi")
+                                    tenv.render_obs("ansi")
+                            except Exception:
+                                pass
                         o, r, d, t, info = tenv.step(int(a_idx))
                         h.update(np.asarray(o).tobytes())
                         h.update(repr((float(r), bool(d), bool(t), sorted(_info_canon(info).items()))).encode())
@@ -355,6 +365,28 @@ def run(pid, tier):
                 violations.append({"property": "C14", "kind": "seeded_trajectory_depends_on_the_scenario_handled_before",
                                    "engine": "predecessor", "case": k,
                                    "detail": {"alone": alone, "after_another_scenario": after, "case": k}})
+    # ---------------- (f) the seed argument in every integer type a caller may hold it in (Python int, NumPy integer
+    # scalars as produced by np.arange / rng.integers / SeedSequence): generating twice with the same parameters and seed
+    # gives identical scenarios whatever the global generator did in between
+    nasim = import_nasim()
+    from nasim.scenarios.benchmark import AVAIL_GEN_BENCHMARKS
+    n_f = 0
+    for bname in ("tiny-gen", "small-gen", "medium-gen"):
+        for sv in (0, 7):
+            for T in (int, np.int64, np.int32, np.uint32, np.uint8):
+                fps = []
+                for noise in (11, 29):
+                    np.random.seed(noise); np.random.rand(noise)
+                    p = dict(AVAIL_GEN_BENCHMARKS[bname]); p["seed"] = T(sv)
+                    try:
+                        fps.append(fp_scenario(nasim.generate_scenario(**p)))
+                    except Exception as e:
+                        fps.append("EXC:" + type(e).__name__)
+                n_f += 2
+                if fps[0] != fps[1]:
+                    violations.append({"property": "C14", "kind": "generation_with_the_same_seed_differs:seed_type_" + T.__name__,
+                                       "engine": "seed_types", "params": {"benchmark": bname, "seed": sv, "seed_type": T.__name__},
+                                       "detail": {"fingerprints": fps}})
     if n_chance == 0:
         raise HarnessError("vacuous C14 trajectories: no chance-decided step executed")
     evals = runs_a + n_b + len(histories) + 3 * len(first)
@@ -389,6 +421,17 @@ def run(pid, tier):
 
 
 def replay(pid, rec):
+    if rec.get("engine") == "seed_types":
+        nasim = import_nasim()
+        from nasim.scenarios.benchmark import AVAIL_GEN_BENCHMARKS
+        q = rec["params"]
+        T = {"int": int, "int64": np.int64, "int32": np.int32, "uint32": np.uint32, "uint8": np.uint8}[q["seed_type"]]
+        fps = []
+        for noise in (11, 29):
+            np.random.seed(noise); np.random.rand(noise)
+            p = dict(AVAIL_GEN_BENCHMARKS[q["benchmark"]]); p["seed"] = T(q["seed"])
+            fps.append(fp_scenario(nasim.generate_scenario(**p)))
+        return [{"kind": rec["kind"], "detail": {"fingerprints": fps}}] if fps[0] != fps[1] else []
     if rec.get("engine") == "apiseq":
         from . import apiseq
         return apiseq.replay(rec)
